@@ -110,6 +110,9 @@ theorem demo_frames : demoTree.frames = 5 := by
 theorem demo_leafCells : demoTree.leafCells = [row2, row3, row1] := by
   simp [demoTree, TTree.leafCells]
 
+theorem demo_distinct : demoTree.PagesDistinct := by
+  simp [TTree.PagesDistinct, demoTree, TTree.nodes]
+
 /-- what the theorem yields for the demo tree: the three rows, right-most subtree first -/
 theorem demo_rows : ∃ t, getBTreeRoot demoV 5 2 = .ok t ∧
     (leafCells t).map cellRow =
@@ -118,7 +121,7 @@ theorem demo_rows : ∃ t, getBTreeRoot demoV 5 2 = .ok t ∧
        (some 1, some [⟨1, 1, 1, .int 7⟩, ⟨17, 1, 2, .text [104, 105]⟩])] ∧
     (aggregateLeafCells t []).1 = 3 := by
   obtain ⟨t, h1, _, h3, h4, _⟩ := TreeParse.table_tree_rows demoV (by decide) (by decide) demoTree
-    demo_laid_out 5 (by rw [demo_frames]; exact Nat.le_refl 5) (by rw [demo_leafCells]; decide)
+    demo_laid_out 5 (by rw [demo_frames]; exact Nat.le_refl 5) demo_distinct (by rw [demo_leafCells]; decide)
   refine ⟨t, h1, ?_, ?_⟩
   · rw [h3, demo_leafCells]; decide +kernel
   · rw [h4, demo_leafCells]; rfl
